@@ -409,6 +409,42 @@ example : persisted demo = [("t", false, [("c", false)])] := by decide
 example : (getTopic (step demo (.deleteTopic "t")).1 "t") = none ∧
     (step demo (.deleteTopic "t")).1.closed = [7, 8] ∧ (step demo (.deleteTopic "t")).1.files = [] := by decide
 
+/-- **no delivery after discard**: once `Channel.Empty` has run, an id `x` that is not waiting in the
+topic's own queue (it had been fanned out) nor in an orphaned disk queue is never accepted for delivery
+on that channel again — whatever history follows (any operations on any objects, including deleting
+and re-creating the channel or the topic), as long as `x` is not published to the topic again (ids
+are fresh, C12) -/
+theorem no_delivery_after_discard (s : St) (t c : String) (x : Nat) (C : Chan)
+    (hC : getChan s t c = some C) (hx : C.exiting = false)
+    (hq : ∀ T ∈ s.topics, T.name = t → ∀ m ∈ T.queue, m.id ≠ x)
+    (ho : ∀ e ∈ s.orphans, ∀ m ∈ e.2, m.id ≠ x)
+    (ops : List Op) (hno : ∀ o ∈ ops, NoPub o t x) (k : Nat) (fm : Bool) :
+    (step (run (step s (.emptyChan t c)).1 ops) (.deliver t c k fm x)).2 ≠ Ans.ok := by
+  apply deliver_absent
+  apply absent_run ops _ t c x _ hno
+  have e1 : (step s (.emptyChan t c)).1 =
+      { modChan s t c Chan.empty with files := removeFiles s.files (t, some c) } := by
+    simp [step, hC, hx]
+  rw [e1]
+  exact absent_after_clear s t c x Chan.empty empty_name (fun _ => rfl) hq ho
+
+/-- the same after a delete (`Channel.Delete()`, then the unlink, then anything — e.g. re-creation) -/
+theorem no_delivery_after_delete (s : St) (t c : String) (x : Nat) (C : Chan)
+    (hC : getChan s t c = some C) (hx : C.exiting = false)
+    (hq : ∀ T ∈ s.topics, T.name = t → ∀ m ∈ T.queue, m.id ≠ x)
+    (ho : ∀ e ∈ s.orphans, ∀ m ∈ e.2, m.id ≠ x)
+    (ops : List Op) (hno : ∀ o ∈ ops, NoPub o t x) (k : Nat) (fm : Bool) :
+    (step (run (step s (.deleteChanBegin t c)).1 ops) (.deliver t c k fm x)).2 ≠ Ans.ok := by
+  apply deliver_absent
+  apply absent_run ops _ t c x _ hno
+  rw [delete_begin_eq s t c C hC hx]
+  exact absent_after_clear s t c x Chan.deleteBegin deleteBegin_name (fun _ => rfl) hq ho
+
+/-- non-vacuity: in `demo` id 11 is in flight on t:c, the topic queue is empty, no orphans -/
+example : (step demo (.deliver "t" "c" 7 false 12)).2 = Ans.ok ∧
+    (step (run (step demo (.emptyChan "t" "c")).1 [.pub "t" m2, .pump "t", .deleteChanBegin "t" "c", .deleteChanUnlink "t" "c",
+      .createChan "t" "c" false, .sub "t" "c" 9]) (.deliver "t" "c" 9 true 11)).2 = Ans.notAllowed := by decide
+
 end atomic
 
 end Nsq.Props.C08
